@@ -28,16 +28,21 @@ def design(ctx):
     base = dict(NKeys=3, NIds=2, MaxKeys=2, MaxIds=1)
     small = dict(NKeys=2, NIds=2, MaxKeys=1, MaxIds=1)
     tot = gen = 0
-    # (name, constants, MaxWrites, writer ops, RecoverBak, process lifetimes, TruncNew, expected violation)
+    tiny = dict(NKeys=1, NIds=2, MaxKeys=1, MaxIds=1)
+    # (name, constants, MaxWrites, writer ops, RecoverBak, process lifetimes, TruncNew, expected violation[, SlogCompacts])
     runs = [("shr_safe", base, 2, '{"set", "del", "drop"}', True, 1, True, None),
+            # SETs that merge (fields kept, XX): every command appended to shrinklog -> equivalent; a shrinklog that lets a
+            # SET replace the SET of the same object recorded just before -> refuted
+            ("shr_merge", tiny, 3, '{"setf", "setp", "setxx", "del"}', True, 1, True, None),
+            ("shr_compact", tiny, 3, '{"setf", "setp", "setxx", "del"}', True, 1, True, "any", True),
             ("shr_rounds", small, 2, '{"set", "del", "drop"}', True, 2, True, None),      # kill, restart, write, shrink again
             ("shr_rename", base, 1, '{"rename"}', True, 1, True, "any"),
             ("shr_append", base, 1, '{"append"}', True, 1, True, "any"),
             ("shr_nobak", base, 1, '{"set"}', False, 1, True, "CrashRecoverable"),
             ("shr_notrunc", small, 2, '{"set", "del", "drop"}', True, 2, False, "any")]   # leftover rewrite target not truncated
-    for name, consts, mw, ops, bak, rounds, trunc, expect in runs:
+    for name, consts, mw, ops, bak, rounds, trunc, expect, *more in runs:
         cfg = "SPECIFICATION Spec\n" + cfg_consts(MaxWrites=mw, WriterOps="raw:" + ops, RecoverBak=bak, MaxRounds=rounds,
-                                                  TruncNew=trunc, **consts) + \
+                                                  TruncNew=trunc, SlogCompacts=bool(more and more[0]), **consts) + \
               "INVARIANT ShrunkEquivalent CrashRecoverable LiveLogAlwaysGood\n"
         r = ctx.tlc(name, ["Shrink.tla"], "---- MODULE MC_%s ----\nEXTENDS Shrink\n====\n" % name, cfg, timeout=900,
                     expect_violation=expect is not None)
@@ -48,8 +53,9 @@ def design(ctx):
         if expect is None:
             tot, gen = tot + r["distinct"], gen + r["generated"]
     ctx.log("TLC Shrink: writers {set, del, drop} x every interleaving and kill point, and a second process lifetime (restart, "
-            "writes, second rewrite) after every kill: %d states, all invariants hold; RENAME, non-idempotent append, the swap "
-            "without -bak recovery and a rewrite target that is not truncated are refuted" % tot)
+            "writes, second rewrite) after every kill; merging SETs (fields kept, XX): %d states, all invariants hold; RENAME, "
+            "non-idempotent append, the swap without -bak recovery, a rewrite target that is not truncated and a shrinklog that "
+            "compacts consecutive SETs of one object are refuted" % tot)
     return tot, gen
 
 
@@ -94,7 +100,22 @@ def directed_cases():
         # a non-idempotent write (array append) made before its collection is rendered is in the snapshot AND replayed
         {"init": [], "initraw": [["JSET", "alpha", "doc", "list.-1", "a"]], "crash": "", "cls": "append-directed",
          "during": [{"gate": "keys", "occ": 1, "frac": 0, "raw": ["JSET", "alpha", "doc", "list.-1", "b"]}]},
-    ]
+    ] + merge_cases()
+
+
+def merge_cases():
+    """Shrink.tla shr_merge / shr_compact as concrete cases: back-to-back SETs of one object while the rewrite is parked -
+    the earlier one carries a field the later one keeps (setf ; setp), or creates the object the later one (XX) needs."""
+    out = []
+    for gate, frac in (("ids", 0.05), ("ids", 0.5), ("ids", 0.97), ("keys", 0.9), ("hooks", 0.0), ("final", 0.0)):
+        during = []
+        for obj in ("0-first", "m-mid", "zz-last"):
+            during += [["SET", "alpha", obj, "FIELD", "speed", "55", "POINT", "2", "2"], ["SET", "alpha", obj, "POINT", "3", "3"],
+                       ["SET", "alpha", obj + "-new", "POINT", "5", "5"], ["SET", "alpha", obj + "-new", "XX", "FIELD", "x", "1", "POINT", "6", "6"]]
+        out.append({"init": [], "initraw": [["SET", "alpha", o, "FIELD", "speed", "10", "POINT", "1", "1"] for o in ("0-first", "m-mid", "zz-last")],
+                    "crash": "", "cls": "merge-directed",
+                    "during": [{"gate": gate, "occ": 0, "frac": frac, "raw": raw} for raw in during]})
+    return out
 
 
 def run_cases(ctx, cases_file, label):
